@@ -1,9 +1,9 @@
 (* Extraction of the executable model (ExtrOcamlBasic only: bool, option,
    list, prod, unit, sumbool become OCaml's; N/positive/nat stay Coq's). *)
-From FJ Require Import Prog Reader Options Marker Writer.
+From FJ Require Import Prog Reader Options Marker Writer JournalMgr.
 Require Import ExtrOcamlBasic.
 Extraction Language OCaml.
 Extraction "../ocaml/gen/fjmodel.ml"
   run db_step db_init as_is ideal read_journal enc_journal enc_batch choose_comp
   rule_verdict tr_open tr_close tr_gc tr_pullup tr_publish tr_clone tr_init
-  N.of_nat N.to_nat encode_kvs from_kvs default_opts check_version open_db w_init w_step w_log.
+  N.of_nat N.to_nat encode_kvs from_kvs default_opts check_version open_db w_init w_step w_log jstep jinit journal_count m_evicted m_sealed.
